@@ -246,8 +246,24 @@ FamInvalid ==
               [DefaultIM EXCEPT !.types = <<P("T1", [DefaultDM EXCEPT !.nested = TRUE])>>],
               [DefaultIM EXCEPT !.scoring = "bm42"] } }
 
+\* X. (thorough) cross product of structure flags, nested, analyzer defaults
+\*    and field variants at depth 2
+FamCross ==
+  IF ~Thorough THEN {}
+  ELSE
+  { Case("cross",
+         [DefaultIM EXCEPT !.defAnalyzer = ia, !.def =
+            [DefaultDM EXCEPT !.defAnalyzer = ra, !.dynamic = rd, !.props =
+               <<P("a", [DefaultDM EXCEPT !.enabled = ae, !.dynamic = ad, !.nested = an,
+                                          !.fields = af, !.props =
+                   <<P("b", [DefaultDM EXCEPT !.dynamic = bd, !.fields = <<f>>])>>])>>]],
+         StructDocs[di])
+    : ia \in {"standard", "simple"}, ra \in {"", "keyword"}, rd \in BOOLEAN, ae \in BOOLEAN,
+      ad \in BOOLEAN, an \in BOOLEAN, af \in {<<>>, <<TextFM>>}, bd \in BOOLEAN,
+      f \in FieldVariants, di \in 1..Len(StructDocs) }
+
 Cases ==
-  FamOptions \cup FamStructure \cup FamNested \cup FamAnalyzer \cup FamTypes
+  FamCross \cup FamOptions \cup FamStructure \cup FamNested \cup FamAnalyzer \cup FamTypes
   \cup FamMulti \cup FamDynamic \cup FamDateFormat \cup FamAll \cup FamStruct
   \cup FamIndexLevel \cup FamInvalid
 
